@@ -361,6 +361,16 @@ CLAIMED = {
              "repointed, naming that relocation; the Coq `report` on the addresses read back from both files must name the same site.",
         technique="Coq proof (per-site comparison rule) + the real tool run on identical and on single-site-corrupted binaries",
         design_ref="DESIGN.md §3 C34"),
+    "C22": dict(
+        text="S1 (narrow): the one parser wild owns outright that is pure — the response-file / option-string tokenizer — as a total Gallina function over code points returning arguments or one "
+             "of four errors. Theorems: every input is answered (by construction); every list of non-empty arguments over all code points, written with a backslash before each quote, white-space "
+             "character and backslash, reads back exactly; each of the four errors has an input. The rest of the property (ELF, archive, linker-script, version-script parsing, argument "
+             "handling: no panic, abort, signal or hang on any bytes) cannot be carried by a model of this size and is decided by mutation runs of the real binary.",
+        note="Partial: only the tokenizer is modelled and tied (same arguments or same error on generated strings, through a hook with catch_unwind). Every other parser is exercised by targeted "
+             "byte mutations, truncations and token-level mutations of valid inputs and by random argument lists, under a 20 s limit; the archive iterator is also driven directly on every "
+             "prefix and on header mutations. A sampled search never proves absence of crashes.",
+        technique="Coq proof (tokenizer round trip and totality) + model-vs-implementation on generated strings + mutation runs of the real binary",
+        design_ref="DESIGN.md §3 C22"),
     "C10": dict(
         text="S1: Gallina model of what wild writes for unwinding (an FDE is kept iff the section its pc-begin points into was loaded and is not empty; one search-table entry per kept FDE with "
              "hdr-relative signed start and FDE pointer; the table sorted by the signed start) and of the consumer (the last entry with start <= pc, then the range check — what libgcc's binary "
